@@ -95,6 +95,10 @@ class Gen:
         if c=='update':
             n=r.choice([n for n,k in sc['names'] if k!='const'])
             return b.add(ty='update', op=r.choice(['++','--']), prefix=r.choice([0,1]), name=n)
+        if c=='call' and getattr(self,'objects',False) and not getattr(self,'orders',False) and r.random()<0.4:
+            # [[Construct]] on a declared function (arrow functions and generators are not constructors: TypeError)
+            fn,ar=r.choice(sc['funcs']+[(g,a) for g,a in sc.get('gfuncs',[])][:1])
+            return b.add(ty='new', f=b.add(ty='var', name=fn), args=[self.expr(sc,d-1) for _ in range(r.choice([ar,ar,max(0,ar-1)]))])
         if c=='call':
             fn,ar=r.choice(sc['funcs'])
             nargs=r.choice([ar,ar,max(0,ar-1),ar+1])
@@ -292,6 +296,8 @@ def pr(P, n, ind=0):
         return f"({d['op']}{sp}{E(d['a'])})"
     if t=='update': return f"(++{d['name']})".replace('++',d['op']) if d['prefix'] else f"({d['name']}{d['op']})"
     if t=='cond': return f"({E(d['a'])} ? {E(d['b'])} : {E(d['c'])})"
+    if t=='new':
+        return f"(new ({E(d['f'])})({', '.join(E(a) for a in d['args'])}))"
     if t=='call':
         c=f"{E(d['f'])}({', '.join(E(a) for a in d['args'])})"
         return f"(await {c})" if ASYNC else c
